@@ -177,7 +177,7 @@ func (r *bufRoles) fieldDelta(in ssa.Instruction, field string) (int64, bool) {
 	if !ok || !r.isStoreTo(in, field) {
 		return 0, false
 	}
-	b, ok := st.Val.(*ssa.BinOp)
+	b, ok := origin(st.Val).(*ssa.BinOp)
 	if !ok {
 		return 0, false
 	}
